@@ -368,6 +368,15 @@ def directed_c01():
     D.append(("native_switch_end", [Y("a + 1"), ("decl", "s", "0"), ("switch", None, "a&1", [("0", [("assign", "s", "1")])], [("assign", "s", "2")]), ("effv", 1, "s")]))
     D.append(("tagless_switch", [("switch", None, None, [("a > b", [Y("a + 1")]), ("g1", [Y("b + 2")])], [E(1)]), Y("a + 3")]))
     D.append(("case_ends_if", [("switch", None, "a&1", [("0", [E(1), ("if", "g1", [Y("a + 1")], None)])], [Y("b + 2")]), Y("a + 3")]))
+    D.append(("native_loop_switch_continue", [("decl", "t", "0"), ("for", ("decl", "i", "0"), "i < n", ("inc", "i"), [("switch", None, "i&1", [("0", [("continue",)])], None), ("assign", "t", "t + i + a")]), Y("t + 1"), Y("b + 2")]))
+    D.append(("native_loop_switch_continue_in_loop", [("for", ("decl", "j", "0"), "j < n", ("inc", "j"), [("decl", "t", "0"), ("for", ("decl", "i", "0"), "i < 3", ("inc", "i"), [("switch", None, "i&1", [("0", [("continue",)]), ("1", [("assign", "t", "t + i")])], None), ("assign", "t", "t + a")]), Y("t + j")])]))
+    D.append(("native_loop_tswitch_continue", [("decl", "t", "0"), ("raw", "var xs = []any{a, \"s\", b}"), ("range", "_", "e", ":=", "xs", [("tswitch", "v", "e", [("string", [("continue",)]), ("int", [("assign", "t", "t + v")])], None), ("assign", "t", "t + 1")]), Y("t + 3")]))
+    D.append(("native_loop_noinit_inner", [("for", ("decl", "i", "0"), "i < n", ("inc", "i"), [("decl", "j", "0"), ("for", None, "j < 2", ("inc", "j"), [Y("i*10 + j")])])]))
+    D.append(("inner_for_no_init_post", [("decl", "j", "0"), ("for", ("decl", "i", "0"), "i < n", ("inc", "i"), [("assign", "j", "0"), ("for", None, "j < 2", ("inc", "j"), [Y("i*10 + j")])])]))
+    D.append(("inner_for_first_stmt_reentered", [("decl", "j", "0"), ("for", ("decl", "i", "0"), "i < n", ("inc", "i"), [("for", None, "j < 2", ("inc", "j"), [Y("i*10 + j")]), ("assign", "j", "0")])]))
+    D.append(("inner_while_first_stmt_reentered", [("decl", "j", "0"), ("for", ("decl", "i", "0"), "i < n", ("inc", "i"), [("for", None, "j < 2", None, [Y("i*10 + j"), ("inc", "j")]), ("assign", "j", "0")])]))
+    D.append(("yield_post_body_ends_all_yielding_if", [("decl", "i", "0"), ("for", None, "i < n", Y("i + 100"), [("inc", "i"), ("if", "g1", [Y("i + 1")], [Y("i + 2")])])]))
+    D.append(("yield_post_body_ends_yielding_switch", [("decl", "i", "0"), ("for", None, "i < n", Y("i + 100"), [("inc", "i"), ("switch", None, "i&1", [("0", [Y("i + 1")])], [Y("i + 2")])])]))
     D.append(("yielding_switch_ends_loop", [("for", ("decl", "i", "0"), "i < n", ("inc", "i"), [("switch", None, "i&1", [("0", [Y("i + 1")])], None)]), Y("a + 2")]))
     return D
 
@@ -555,7 +564,12 @@ def plan_C02(ctx):
     K = ctx.q(6, 12)
 
     def build(corp):
-        return build_c01_corpus(ctx, corp, ctx.q(150, 1500), ctx.q(200, 1800), sample_seed_off=2, transform=gen.effectify)
+        counts = build_c01_corpus(ctx, corp, ctx.q(150, 1500), ctx.q(200, 1800), sample_seed_off=2, transform=gen.effectify)
+        xs = gen.exprform_programs()
+        for p in xs:
+            corp.add(p)
+        counts["expression_forms"] = len(xs)
+        return counts
 
     extra = {
         "bounds": {"advances_K": K, "extra_advances_after_exhaustion": 2, "loop_bound_n": "[-1,3]",
@@ -830,7 +844,10 @@ def plan_C07(ctx):
             p.helpers = p.helpers.replace("@", p.pid)
             p.body = [tuple(x.replace("@", p.pid) if isinstance(x, str) else x for x in st) for st in p.body]
             corp.add(p)
-        counts.update({"effect_instrumented": n, "delegating": m, "eta_shapes": len(eta_programs())})
+        xs = gen.exprform_programs()
+        for p in xs:
+            corp.add(p)
+        counts.update({"effect_instrumented": n, "delegating": m, "eta_shapes": len(eta_programs()), "expression_forms": len(xs)})
         return counts
 
     extra = {
